@@ -16,7 +16,7 @@ use std::process::Command;
 use std::sync::Mutex;
 use vcore::report::Ctx;
 
-const GRAMMARS: [(&str, &str); 6] = [
+const BASE_GRAMMARS: [(&str, &str); 6] = [
     ("g0", "%grmtools{yacckind: Original(GenericParseTree)}\n%start S\n%%\nS: 'a' S | 'b';\n"),
     ("g1", "%grmtools{yacckind: Original(GenericParseTree)}\n%start S\n%%\nS: 'a' S | 'b' | 'c';\n"),
     ("g1p", "%grmtools{yacckind: Original(GenericParseTree)}\n%start S\n%%\nS: S 'a' | 'b';\n"),
@@ -24,7 +24,7 @@ const GRAMMARS: [(&str, &str); 6] = [
     ("gX", "%grmtools{yacckind: Original(GenericParseTree)}\n%start S\n%%\nS: 'a' S | ;;; 'b'\n"),
     ("gW", "%grmtools{yacckind: Original(GenericParseTree)}\n%start S\n%token z\n%%\nS: 'a' S | 'b';\n"),
 ];
-const LEXERS: [(&str, &str); 4] = [
+const BASE_LEXERS: [(&str, &str); 4] = [
     ("l0", "%%\na 'a'\nb 'b'\nc 'c'\nz 'z'\n[ ]+ ;\n"),
     ("l1", "%%\na+ 'a'\nb 'b'\nc 'c'\nz 'z'\n[ \\n]+ ;\n"),
     ("lX", "%%\na 'a'\n(b 'b'\n"),
@@ -44,6 +44,35 @@ const OPTIONS: [(&str, &[&str]); 11] = [
     ("lex_mod_name", &["", "custom_l"]),
     ("lex_case_insensitive", &["", "true"]),
 ];
+
+/// Number of grammar / lexer versions that take part in the breadth-first search and in phase 2.
+const N_G: usize = 6;
+const N_L: usize = 4;
+const N_LARGE_TOKENS: usize = 220;
+
+/// The versions above plus one large pair (index N_G / N_L): a grammar with 220 tokens of 14
+/// characters each and its lexer. The settings string that the parser builder records in the
+/// generated file (it lists the token map) is then far longer than any fixed-size buffer.
+static GRAMMARS: std::sync::LazyLock<Vec<(&'static str, String)>> = std::sync::LazyLock::new(|| {
+    let mut v: Vec<(&'static str, String)> = BASE_GRAMMARS.iter().map(|(n, t)| (*n, t.to_string())).collect();
+    let mut t = String::from("%grmtools{yacckind: Original(GenericParseTree)}\n%start S\n%%\nS: 'a' S | 'b' | T;\nT:");
+    for i in 0..N_LARGE_TOKENS {
+        t.push_str(&format!("{} 'TOKEN_{:08}'", if i == 0 { "" } else { " |" }, i));
+    }
+    t.push_str(";\n");
+    v.push(("gL", t));
+    v
+});
+static LEXERS: std::sync::LazyLock<Vec<(&'static str, String)>> = std::sync::LazyLock::new(|| {
+    let mut v: Vec<(&'static str, String)> = BASE_LEXERS.iter().map(|(n, t)| (*n, t.to_string())).collect();
+    let mut t = String::from("%%\na 'a'\nb 'b'\n");
+    for i in 0..N_LARGE_TOKENS {
+        t.push_str(&format!("t{:08} 'TOKEN_{:08}'\n", i, i));
+    }
+    t.push_str("[ ]+ ;\n");
+    v.push(("lL", t));
+    v
+});
 
 type Settings = Vec<usize>; // index into OPTIONS[i].1
 
@@ -156,8 +185,8 @@ impl Env {
         }
         let dir = self.tmp();
         std::fs::create_dir_all(&dir).unwrap();
-        std::fs::write(dir.join("g.y"), GRAMMARS[g].1).unwrap();
-        std::fs::write(dir.join("l.l"), LEXERS[l].1).unwrap();
+        std::fs::write(dir.join("g.y"), &GRAMMARS[g].1).unwrap();
+        std::fs::write(dir.join("l.l"), &LEXERS[l].1).unwrap();
         filetime::set_file_mtime(dir.join("g.y"), filetime::FileTime::from_unix_time(T0, 0)).unwrap();
         filetime::set_file_mtime(dir.join("l.l"), filetime::FileTime::from_unix_time(T0, 0)).unwrap();
         let r = run_vbuild(&dir, settings, mode);
@@ -189,7 +218,7 @@ fn ev_name(e: &Ev) -> String {
 
 fn events(s: &Snap, quick: bool) -> Vec<Ev> {
     let mut v = vec![];
-    for g in 0..GRAMMARS.len() {
+    for g in 0..N_G {
         if g != s.g {
             v.push(Ev::EditG(g, false));
             if s.files.contains_key("out.y.rs") && !quick {
@@ -197,7 +226,7 @@ fn events(s: &Snap, quick: bool) -> Vec<Ev> {
             }
         }
     }
-    for l in 0..LEXERS.len() {
+    for l in 0..N_L {
         if l != s.l {
             v.push(Ev::EditL(l));
         }
@@ -399,8 +428,8 @@ fn step(ctx: &Ctx, env: &Env, st: &Stats, s: &Snap, e: &Ev) -> Snap {
 fn alt_initial_states() -> Vec<Snap> {
     let mut alt_inits: Vec<Snap> = vec![];
     let off: Vec<Vec<(usize, usize)>> = vec![vec![(4, 1)], vec![(5, 1)], vec![(4, 1), (5, 1)], vec![(6, 1)], vec![]];
-    for g in 0..GRAMMARS.len() {
-        for l in 0..LEXERS.len() {
+    for g in 0..N_G {
+        for l in 0..N_L {
             for o in &off {
                 if o.is_empty() && g == 0 && l == 0 {
                     continue;
@@ -415,6 +444,11 @@ fn alt_initial_states() -> Vec<Snap> {
             }
         }
     }
+    // the large pair with default settings (settings strings longer than any fixed-size buffer)
+    let mut sn = Snap { g: N_G, l: N_L, settings: vec![0; OPTIONS.len()], files: BTreeMap::new(), clock: 0, parser_built_for: None, history: vec![format!("(start from {} / {} with [])", GRAMMARS[N_G].0, LEXERS[N_L].0)] };
+    sn.files.insert("g.y".into(), FileState { content: GRAMMARS[N_G].1.as_bytes().to_vec(), mtime: T0 });
+    sn.files.insert("l.l".into(), FileState { content: LEXERS[N_L].1.as_bytes().to_vec(), mtime: T0 });
+    alt_inits.push(sn);
     alt_inits
 }
 
